@@ -16,7 +16,7 @@ SHARDS = {"quick": 8, "thorough": 16}
 BUDGET = {"quick": 85, "thorough": 840}
 RULE = (
     "Outer cases (Hypothesis): a valid sorted pixel stream cut into m<=4 chunks of <=5 records x storage mode x "
-    "producer (create ordered, create unordered, merge_coolers, coarsen_cooler) x destination (new file at / or "
+    "producer (create ordered, create unordered, merge_coolers, coarsen_cooler, the cooler load text loader with unique/duplex input) x destination (new file at / or "
     "a group; new group beside 1..3 neighbour collections at /, /a, /g/b; an existing plain non-root group). For "
     "each outer case the fault space is ENUMERATED COMPLETELY: {bin id -1, bin id n, lower-triangle pixel "
     "(symmetric mode), in-chunk duplicate adjacent to / far from its original} x every chunk x every record position, plus an exception raised by the "
@@ -48,7 +48,7 @@ def cases(draw):
     m = draw(st.integers(1, 4))
     cuts = sorted(draw(st.lists(st.integers(0, len(rows)), min_size=m - 1, max_size=m - 1)))
     chunks = [c[:5] for c in gen.split_at(rows, cuts)]
-    producer = draw(st.sampled_from(["ordered", "ordered", "unordered", "merge", "coarsen"]))
+    producer = draw(st.sampled_from(["ordered", "ordered", "unordered", "merge", "coarsen", "cli-load"]))
     destkind = draw(st.sampled_from(["newfile", "multi", "multi", "plain"]))
     neigh = draw(st.lists(st.sampled_from(["/", "/a", "/g/b"]), min_size=1, max_size=3, unique=True)) if destkind != "newfile" else []
     dest = draw(st.sampled_from(["/", "/grp"])) if destkind == "newfile" else \
@@ -56,7 +56,7 @@ def cases(draw):
     nrows = draw(gen.pixels(n, symmetric, count=st.integers(1, 9), max_nnz=6))
     return {"part": "faults", "bt": bt, "symmetric": symmetric, "chunks": chunks, "producer": producer,
             "destkind": destkind, "neighbours": sorted(neigh), "dest": dest, "neighbour_rows": nrows,
-            "hard": draw(st.integers(0, 7)) == 0, "mergebuf": draw(st.sampled_from([1, 2, 4])), "k": draw(st.integers(2, 3)), "chunksize": draw(st.sampled_from([1, 2, 3]))}
+            "copy_status": draw(st.sampled_from(["unique", "duplex"])), "hard": draw(st.integers(0, 7)) == 0, "mergebuf": draw(st.sampled_from([1, 2, 4])), "k": draw(st.integers(2, 3)), "chunksize": draw(st.sampled_from([1, 2, 3]))}
 
 
 def _faulty_chunks(chunks, n, symmetric):
@@ -217,6 +217,36 @@ def _run_create(setup: Setup, stream, exc_before=None, hard_exit=False):
                          symmetric_upper=case["symmetric"], mode=mode, h5opts={"compression": None}, **kw)
 
 
+def _run_cli_load(setup: Setup, stream):
+    """cooler load -f coo on the text form of a chunk stream (read as ONE reader chunk, so that a duplicate stays
+    inside a chunk)."""
+    from ..cliutil import run_cli
+
+    case = setup.case
+    d = setup.dir
+    bed = os.path.join(d, "bins.bed")
+    with open(bed, "w") as f:
+        for c, s_, e in model.bins_rows(case["bt"]):
+            f.write(f"{c}\t{s_}\t{e}\n")
+    txt = os.path.join(d, "in.coo")
+    total = 0
+    with open(txt, "w") as f:
+        for ch in stream:
+            for r in ch:
+                f.write(f"{r[0]}\t{r[1]}\t{r[2]}\n")
+                total += 1
+    args = ["load", "-f", "coo", bed, txt, setup.dest_uri, "--chunksize", str(max(total, 1))]
+    if os.path.exists(setup.file):
+        args.append("--append")
+    if not case["symmetric"]:
+        args.append("-N")
+    elif case.get("copy_status") == "duplex":
+        args += ["--input-copy-status", "duplex"]
+    rc, _, exc = run_cli(args)
+    if rc != 0 or exc is not None:
+        raise RuntimeError(f"cooler load exit {rc}: {exc!r}")
+
+
 def _run_reduce(setup: Setup, fault=None, observe=None, hard_exit=False):
     """merge_coolers / coarsen_cooler with their chunk iterator wrapped by the harness."""
     import cooler
@@ -296,7 +326,10 @@ def check_faults(case, ctx: Ctx):
         # sanity: the unperturbed producer succeeds and yields a cooler (otherwise the faults prove nothing)
         setup.restore()
         observed: list[int] = []
-        if case["producer"] in ("ordered", "unordered"):
+        if case["producer"] == "cli-load":
+            call("producer without fault", _run_cli_load, setup, case["chunks"])
+            chunk_sizes = [len(c) for c in case["chunks"]]
+        elif case["producer"] in ("ordered", "unordered"):
             call("producer without fault", _run_create, setup, case["chunks"])
             chunk_sizes = [len(c) for c in case["chunks"]]
         else:
@@ -321,7 +354,15 @@ def check_faults(case, ctx: Ctx):
                 n_nt += 1
 
         m = len(chunk_sizes)
-        if case["producer"] in ("ordered", "unordered"):
+        if case["producer"] == "cli-load":
+            for label, k, stream in _faulty_chunks(case["chunks"], n, case["symmetric"]):
+                kind = label.split("@")[0]
+                if kind == "tril":
+                    continue          # the text loader mirrors / drops lower-triangle records by design
+                if kind in ("neg", "big") and case["symmetric"] and case.get("copy_status") == "duplex":
+                    continue          # may legitimately be discarded as a lower-triangle record (see C05)
+                one(label, k, lambda s_=stream: _run_cli_load(setup, s_))
+        elif case["producer"] in ("ordered", "unordered"):
             for label, k, stream in _faulty_chunks(case["chunks"], n, case["symmetric"]):
                 one(label, k, lambda s=stream: _run_create(setup, s))
             for k in range(m + 1):
@@ -337,7 +378,7 @@ def check_faults(case, ctx: Ctx):
                         one(f"{kind}@chunk{k}[{p}]", k, lambda k=k, p=p, kind=kind: _run_reduce(setup, ("rec", k, kind, p)))
             for k in range(m + 1):
                 one(f"iter-exc@chunk{k}", k, lambda k=k: _run_reduce(setup, ("exc", k)))
-        if hard:
+        if hard and case["producer"] != "cli-load":
             for k in range(m + 1):
                 setup.restore()
                 if case["producer"] in ("ordered", "unordered"):
